@@ -125,8 +125,9 @@ def cases():
     # one feature at a time, uninterpreted model, vectorised branch
     for f in STATE_INDEP:
         ctl = f not in ("time_to_maturity", "zeros", "volatility", "variance")
-        cs.append(Case("feature/%s" % f, nonanticipative_case(1, 4, "heston", "european", [f], "uf", controls=ctl), encodes=enc,
-                       bounds="N=1 T=4 heston-like buffers, perturb every suffix"))
+        n_ = 2 if f == "module_output" else 1  # (a module feature may mix rows: two paths)
+        cs.append(Case("feature/%s" % f, nonanticipative_case(n_, 4, "heston", "european", [f], "uf", controls=ctl), encodes=enc,
+                       bounds="N=%d T=4 heston-like buffers, perturb every suffix" % n_))
     # full feature lists, both branches
     full = ["log_moneyness", "max_log_moneyness", "time_to_maturity", "volatility", "barrier_up"]
     cs.append(Case("list/vectorised/uf/H2", nonanticipative_case(2, 4, "heston", "lookback", full, "uf", H=2, controls=True), encodes=enc,
